@@ -26,7 +26,7 @@ def main():
             cases.append({"op": "in_unit", "a": {"m": ["int", "3", "1"], "u": a}, "b": b})
     while len(cases) < nship:
         a, b = sp.pair(rng)
-        cases.append({"op": "in_unit", "a": {"m": convgen.rand_mag(rng, ("int", "float")), "u": a}, "b": b})
+        cases.append({"op": "in_unit", "a": {"m": convgen.rand_mag(rng, ("int", "float", "dec")), "u": a}, "b": b})
     r = impl("convsys_worker.py", {"systems": True, "cases": cases, "coverage": True})
     if "coverage" in r: c.cov["conversions_py_line_coverage_shipped_run"] = r["coverage"]
     info = run_block(c, "ship", r["export"], cases, r["results"], Fraction(1, 10**11))
